@@ -16,6 +16,13 @@
  *                 at and above the 2048-byte caching threshold, GRend/Hclose/Hopen/GRstart in both modes.
  *   7        V    Vdata, Vdata-field and Vgroup attributes (VSsetattr/VSnattrs/VSfnattrs/VSfindattr/VSattrinfo/VSgetattr,
  *                 Vsetattr/Vnattrs/Vfindattr/Vattrinfo/Vgetattr), "r"/"w" attach modes, Vend/Hclose/Hopen/Vstart.
+ * Every second group of 8 cases runs flavours 1, 4 (SD), 6 (GR) and 7 (V) as SINGLE-CHANGE histories: a first session builds
+ *   the objects, then every later read-write session makes exactly ONE setter call (each setter of the family in turn:
+ *   SDsetattr on file / dataset / dimension with a new name, an existing name, values only; SDsetdimscale first / same type /
+ *   another type of the same size / of another size; SDsetdimstrs, SDsetdatastrs, SDsetcal, SDsetrange, SDsetfillvalue,
+ *   SDsetdimname; GRsetattr on file / image; VSsetattr on Vdata / field, Vsetattr) on an object that is already on disk and
+ *   calls no getter that could mark anything modified; the file is closed, reopened and the whole metadata view is audited.
+ *   A setter that relies on some OTHER call of the session to get its change written has nowhere to hide.
  * Every call is a T line (values as hex) recomputed by the model.  Reference numbers handed out by Hnewref are inputs
  * of the model (`sd.refs`).
  * Oracles (model independent): shadow attribute tables in C, see `shadow_*`; one key per failure kind.
@@ -147,6 +154,12 @@ static SList ps_file, ps_var[MAXV]; static int ps_nvars; /* as of the last writa
 static int   sd_refs[MAXV];
 
 static char  varnames[MAXV][400];
+/* single-change histories: the target and flavour of the next op is imposed (-1 / 0 = random as usual) */
+static int   fz_kind = -1, fz_idx, fz_attr;  /* fz_attr: 1 = re-set an existing name with its type and count (values only), 2 = new name, 3 = existing name, random type/count */
+static int   sd_single;                      /* in a single-change session: no call that is not the setter may touch NC_HDIRTY (SDgetdimscale does) */
+/* what SDsetdimscale stored last, per coordinate VARIABLE (their index never changes; a dimension finds its variable by name) */
+static struct { int valid; int32 nt; int len; uint8_t *val; } sc[MAXV];
+static void sc_clear(int v) { free(sc[v].val); sc[v].val = NULL; sc[v].valid = 0; sc[v].len = 0; }
 static int32 sds(int v) { return SDselect(sdid, v); }
 static int32 dimid_of_slot(int s) { return SDgetdimid(sds(slotvk[s].v), slotvk[s].k); }
 
@@ -188,7 +201,7 @@ static void sd_start(char mode)
     printf("%s\n", sdid == FAIL ? "fail" : "ok");
     sd_rdwr = mode != 'r';
     nslots = 0; memset(slotvk, 0, sizeof slotvk);
-    if (mode == 'c') { sd_nvars = 0; sl_free(&sh_file); for (int i = 0; i < MAXV; i++) sl_free(&sh_var[i]); return; }
+    if (mode == 'c') { sd_nvars = 0; sl_free(&sh_file); for (int i = 0; i < MAXV; i++) { sl_free(&sh_var[i]); sc_clear(i); } return; }
     /* reopen: learn what is there (every answer is also a T line) */
     int32 nv = 0, na = 0;
     SDfileinfo(sdid, &nv, &na);
@@ -243,35 +256,73 @@ static void sd_audit_list(const char *what, int idx, const SList *exp, int32 id)
     sl_free(&act);
 }
 static char ps_dimname[MAXV][4][H4_MAX_NC_NAME + 8]; static int ps_dimnattr[MAXV][4]; static int ps_rank[MAXV];
+static int32 ps_dimsize[MAXV][4], ps_dimnt[MAXV][4], ps_vnt[MAXV]; static char ps_vname[MAXV][H4_MAX_NC_NAME + 8];
+/* the view of the variable and dimension tables as the session that is about to close sees it (pure getters only) */
 static void sd_remember_dims(void)
 {
     for (int v = 0; v < sd_nvars && v < MAXV; v++) {
-        ps_rank[v] = sv[v].rank;
-        for (int k = 0; k < sv[v].rank && k < 4; k++) {
-            int32 sz, nt, na; ps_dimname[v][k][0] = 0; ps_dimnattr[v][k] = -1;
+        int32 rank = 0, nt = 0, nat = 0, dsz[H4_MAX_VAR_DIMS];
+        ps_rank[v] = sv[v].rank; ps_vnt[v] = -1; ps_vname[v][0] = 0;
+        if (SDgetinfo(sds(v), ps_vname[v], &rank, dsz, &nt, &nat) != FAIL) { ps_vnt[v] = nt; ps_rank[v] = rank; }
+        for (int k = 0; k < ps_rank[v] && k < 4; k++) {
+            int32 sz = 0, nt = 0, na; ps_dimname[v][k][0] = 0; ps_dimnattr[v][k] = -1;
             int32 d = SDgetdimid(sds(v), k);
-            if (d != FAIL && SDdiminfo(d, ps_dimname[v][k], &sz, &nt, &na) != FAIL) ps_dimnattr[v][k] = na;
+            if (d != FAIL && SDdiminfo(d, ps_dimname[v][k], &sz, &nt, &na) != FAIL) { ps_dimnattr[v][k] = na; ps_dimsize[v][k] = sz; ps_dimnt[v][k] = nt; }
         }
     }
 }
 static void sd_audit_dims(void)
 {
-    for (int v = 0; v < ps_nvars && v < sd_nvars; v++)
+    for (int v = 0; v < ps_nvars && v < sd_nvars; v++) {
+        char vn[H4_MAX_NC_NAME + 8]; int32 rank = 0, vnt = 0, nat = 0, dsz[H4_MAX_VAR_DIMS];
+        if (ps_vnt[v] >= 0 && SDgetinfo(sds(v), vn, &rank, dsz, &vnt, &nat) != FAIL) {
+            if (vnt != ps_vnt[v]) hk_fail("sd-var-type-changed-on-reopen", "var %d: number type %d before close, %d after reopen", v, (int)ps_vnt[v], (int)vnt);
+            if (rank != ps_rank[v]) hk_fail("sd-var-rank-changed-on-reopen", "var %d: %d -> %d", v, ps_rank[v], (int)rank);
+            if (strcmp(vn, ps_vname[v]) && !SDiscoordvar(sds(v))) hk_fail("sd-var-name-changed-on-reopen", "var %d", v);
+        }
         for (int k = 0; k < ps_rank[v] && k < 4; k++) {
             char nm[H4_MAX_NC_NAME + 8]; int32 sz, nt, na;
             int32 d = SDgetdimid(sds(v), k);
             if (ps_dimnattr[v][k] < 0 || d == FAIL || SDdiminfo(d, nm, &sz, &nt, &na) == FAIL) continue;
             int fake_before = strncmp(ps_dimname[v][k], "fakeDim", 7) == 0;
+            if (sz != ps_dimsize[v][k]) hk_fail("sd-dim-size-changed-on-reopen", "var %d dim %d: %d -> %d", v, k, (int)ps_dimsize[v][k], (int)sz);
             if (strcmp(nm, ps_dimname[v][k]) != 0) {
                 if (!fake_before) hk_fail("sd-dim-name-changed-on-reopen", "var %d dim %d", v, k);
                 else { /* an unnamed dimension may be renumbered, but must keep its metadata */
                     int digits = 1; for (const char *p = ps_dimname[v][k] + 7; *p; p++) if (*p < '0' || *p > '9') digits = 0;
                     if (!digits) hk_fail("sd-fakedim-prefixed-user-name-lost", "var %d dim %d: user name starting with fakeDim was replaced", v, k);
                     else if (na < ps_dimnattr[v][k]) hk_fail("sd-fakedim-renumber-orphans-coordvar", "var %d dim %d: %s -> %s, %d attributes -> %d", v, k, ps_dimname[v][k], nm, ps_dimnattr[v][k], (int)na);
+                    else if (nt != ps_dimnt[v][k]) hk_fail("sd-dim-scale-type-changed-on-reopen", "var %d dim %d (%s -> %s): scale type %d before close, %d after reopen", v, k, ps_dimname[v][k], nm, (int)ps_dimnt[v][k], (int)nt);
                 }
             }
-            else if (na != ps_dimnattr[v][k]) hk_fail("sd-dim-attr-count-changed-on-reopen", "var %d dim %d: %d -> %d", v, k, ps_dimnattr[v][k], (int)na);
+            else {
+                if (na != ps_dimnattr[v][k]) hk_fail("sd-dim-attr-count-changed-on-reopen", "var %d dim %d: %d -> %d", v, k, ps_dimnattr[v][k], (int)na);
+                if (nt != ps_dimnt[v][k]) hk_fail("sd-dim-scale-type-changed-on-reopen", "var %d dim %d: scale type %d before close, %d after reopen", v, k, (int)ps_dimnt[v][k], (int)nt);
+            }
         }
+    }
+}
+static int sd_coordvar_of(int32 dimid);
+/* the scales: every dimension whose coordinate variable was given values by SDsetdimscale (in whatever session) reports the
+   number type of the last successful call and, read under that type, returns its values.  SDgetdimscale marks the header
+   modified, so the values are read (as T lines) only in read-only sessions. */
+static void sd_audit_scales(int read_values)
+{
+    for (int s = 0; s < nslots; s++) {
+        if (!slotvk[s].known) continue;
+        char nm[H4_MAX_NC_NAME + 8]; int32 sz = 0, nt = 0, na;
+        int32 d = dimid_of_slot(s);
+        if (d == FAIL || SDdiminfo(d, nm, &sz, &nt, &na) == FAIL || sz == 0) continue;
+        int cv = sd_coordvar_of(d);
+        if (cv < 0 || cv >= MAXV || !sc[cv].valid) continue;
+        if (nt != sc[cv].nt) { hk_fail("sd-dim-scale-type-changed-on-reopen", "dimension slot %d (variable %d): SDdiminfo reports scale type %d, the last SDsetdimscale gave %d", s, cv, (int)nt, (int)sc[cv].nt); continue; }
+        if (!read_values || (long)sz * ntsz(nt) != sc[cv].len) continue;
+        memset(outbuf, 0x55, (size_t)sc[cv].len + 8);
+        printf("T attr sd.getdimscale %d => ", s);
+        if (SDgetdimscale(d, outbuf) == FAIL) { printf("fail\n"); hk_fail("sd-dim-scale-unreadable-on-reopen", "dimension slot %d (variable %d, type %d)", s, cv, (int)nt); continue; }
+        phex(outbuf, (size_t)sc[cv].len); printf("\n");
+        if (memcmp(outbuf, sc[cv].val, (size_t)sc[cv].len)) hk_fail("sd-dim-scale-values-changed-on-reopen", "dimension slot %d (variable %d, type %d): not the values of the last SDsetdimscale", s, cv, (int)nt);
+    }
 }
 static void sd_end(void)
 {
@@ -296,6 +347,8 @@ static void sd_audit_after_reopen(void)
     sd_audit_list("file", 0, &ps_file, sdid);
     for (int v = 0; v < ps_nvars && v < sd_nvars; v++) sd_audit_list("var", v, &ps_var[v], sds(v));
     sd_audit_dims();
+    for (int v = sd_nvars; v < MAXV; v++) sc_clear(v);
+    sd_audit_scales(!sd_rdwr);
     /* continue from what is really there */
     sd_snapshot(sdid, &sh_file);
     for (int v = 0; v < sd_nvars; v++) sd_snapshot(sds(v), &sh_var[v]);
@@ -312,6 +365,7 @@ static const char *sd_objtok(int kind, int idx) { static char b[32]; if (kind ==
 /* pick an object: 0 file, 1 var, 2 dim slot; returns id */
 static int32 sd_pick(int *kind, int *idx)
 {
+    if (fz_kind >= 0) { *kind = fz_kind; *idx = fz_idx; return fz_kind == 0 ? sdid : fz_kind == 1 ? sds(fz_idx) : dimid_of_slot(fz_idx); }
     int r = (int)hk_range(0, 99);
     if (sd_nvars == 0 || r < 25) { *kind = 0; *idx = 0; return sdid; }
     if (r < 70 || nslots == 0) { *kind = 1; *idx = (int)hk_range(0, sd_nvars - 1); return sds(*idx); }
@@ -366,13 +420,16 @@ static void sd_op_setattr(int tiny)
     int sz = ntsz(nt);
     int32 count = tiny ? 1 : hk_chance(3) ? (int32)hk_range(-1, 0) : gen_count(sz);
     if (!tiny && strlen(name) > 100 && count > 64) count = 3;
+    if (fz_attr == 2) { while (sl_find(l, name) >= 0 && strlen(name) < 60) strcat(name, "_"); }
+    else if (fz_attr && l->n > 0) { const SAttr *e = &l->a[hk_range(0, l->n - 1)]; strcpy(name, e->name); if (fz_attr == 1) { nt = e->nt; count = e->count; sz = ntsz(nt); } }
     int vlen = count > 0 ? count * sz : 0;
     if (vlen > BIG * 8) vlen = 8;
     gen_val(valbuf, vlen);
     printf("T attr sd.setattr %s ", sd_objtok(kind, idx)); pname(name); printf(" %d %d ", (int)nt, (int)count); phex(valbuf, (size_t)vlen);
     int rc = SDsetattr(id, name, nt, count, valbuf);
     printf(" => %s\n", rc == FAIL ? "fail" : "ok");
-    if (kind == 2) { sd_emit_newvars(); l = sd_shadow(kind, idx, id); if (rc != FAIL) sd_check_readback(id, l, name, "sd-get-after-set"); sd_sync_dimshadow(); return; }
+    if (kind == 2) { sd_in_query = rc == FAIL; /* a refused call may still have made SDIgetcoordvar add an empty variable in memory */
+        sd_emit_newvars(); sd_in_query = 0; l = sd_shadow(kind, idx, id); if (rc != FAIL) sd_check_readback(id, l, name, "sd-get-after-set"); sd_sync_dimshadow(); return; }
     int exp = expect_set(K_SD, l, name, nt, count, sd_rdwr);
     int pos = sl_find(l, name), n0 = l->n;
     if (rc != FAIL) {
@@ -437,12 +494,11 @@ static void print_strbufs(char **p, int n, int len)
     for (int i = 0; i < n; i++) { printf("%s", i ? " " : ""); if (!p[i]) printf("N"); else phex(p[i], (size_t)len + 1); }
     printf("\n");
 }
-static void sd_op_datastrs(void)
+static void sd_op_datastrs_at(int v, int set)
 {
-    if (sd_nvars == 0) return;
-    int v = (int)hk_range(0, sd_nvars - 1); int32 id = sds(v);
+    int32 id = sds(v);
     static char sb[4][320];
-    if (hk_chance(50)) {
+    if (set) {
         printf("T attr sd.setdatastrs %d", v);
         const char *l = gen_optstr(sb[0], 300), *u = gen_optstr(sb[1], 40), *f = gen_optstr(sb[2], 40), *c = gen_optstr(sb[3], 40);
         int rc = SDsetdatastrs(id, l, u, f, c);
@@ -465,12 +521,17 @@ static void sd_op_datastrs(void)
         if (SDgetdatastrs(id, o[0], o[1], o[2], o[3], len) == FAIL) printf("fail\n"); else print_strbufs(o, 4, len);
     }
 }
-static double gen_double(void) { return (double)hk_range(-1000000, 1000000) / (double)hk_range(1, 97); }
-static void sd_op_cal(void)
+static void sd_op_datastrs(void)
 {
     if (sd_nvars == 0) return;
-    int v = (int)hk_range(0, sd_nvars - 1); int32 id = sds(v);
-    if (hk_chance(50)) {
+    int v = (int)hk_range(0, sd_nvars - 1);
+    sd_op_datastrs_at(v, hk_chance(50));
+}
+static double gen_double(void) { return (double)hk_range(-1000000, 1000000) / (double)hk_range(1, 97); }
+static void sd_op_cal_at(int v, int set)
+{
+    int32 id = sds(v);
+    if (set) {
         double c[4]; for (int i = 0; i < 4; i++) c[i] = gen_double();
         int32 nt = NT[hk_range(0, 9)];
         printf("T attr sd.setcal %d ", v); for (int i = 0; i < 4; i++) { phex(&c[i], 8); printf(" "); } phex(&nt, 4);
@@ -490,13 +551,18 @@ static void sd_op_cal(void)
         else { for (int i = 0; i < 4; i++) { phex(ob[i], 8); printf(" "); } phex(ob[4], 4); printf("\n"); }
     }
 }
-static void sd_op_range_fill(void)
+static void sd_op_cal(void)
 {
     if (sd_nvars == 0) return;
-    int v = (int)hk_range(0, sd_nvars - 1); int32 id = sds(v);
+    int v = (int)hk_range(0, sd_nvars - 1);
+    sd_op_cal_at(v, hk_chance(50));
+}
+static void sd_op_range_fill_at(int v, int r)
+{
+    int32 id = sds(v);
     { char nm[H4_MAX_NC_NAME + 8]; int32 rank, nt, nat, dsz[H4_MAX_VAR_DIMS]; if (SDgetinfo(id, nm, &rank, dsz, &nt, &nat) != FAIL) sv[v].nt = nt; } /* a coordinate variable may have been retyped */
     int sz = ntsz(sv[v].nt);
-    int r = (int)hk_range(0, 3);
+    if (r < 0) r = (int)hk_range(0, 3);
     if (r == 0) {
         uint8_t mx[8], mn[8]; gen_val(mx, sz); gen_val(mn, sz);
         printf("T attr sd.setrange %d ", v); phex(mx, (size_t)sz); printf(" "); phex(mn, (size_t)sz);
@@ -532,6 +598,12 @@ static void sd_op_range_fill(void)
         if (SDgetfillvalue(id, ob[0]) == FAIL) printf("fail\n"); else { phex(ob[0], (size_t)sz); printf("\n"); }
     }
 }
+static void sd_op_range_fill(void)
+{
+    if (sd_nvars == 0) return;
+    int v = (int)hk_range(0, sd_nvars - 1);
+    sd_op_range_fill_at(v, -1);
+}
 static const char *DIMNAMES[] = {"x", "y", "lat", "lon", "time", "a", "fakeDimension"};
 static void sd_op_create(int rank32)
 {
@@ -561,11 +633,21 @@ static void sd_op_create(int rank32)
     sd_emit_newvars();
     sd_learn_dims(v);
 }
-static void sd_op_dim(void)
+/* another number type for a scale of type `cur`: same = 1 of the same element size, 0 of another size */
+static int32 other_nt(int32 cur, int same)
 {
-    int s = sd_pick_slot(); if (s < 0) return;
+    int32 cand[20]; int n = 0;
+    for (int i = 0; i < 10; i++) for (int le = 0; le < 2; le++) {
+        int32 t = NT[i] | (le ? DFNT_LITEND : 0);
+        if (t != cur && (ntsz(t) == ntsz(cur)) == same) cand[n++] = t;
+    }
+    return cand[hk_range(0, n - 1)];
+}
+/* one call on dimension slot s; r selects the call as in sd_op_dim; smode (SDsetdimscale): 0 any type, 1 the type the scale
+   has, 2 another type of the same size, 3 a type of another size */
+static void sd_op_dim_at(int s, int r, int smode)
+{
     int32 d = dimid_of_slot(s);
-    int r = (int)hk_range(0, 99);
     static char sb[3][320];
     if (r < 22) {
         char name[400];
@@ -610,6 +692,7 @@ static void sd_op_dim(void)
         if (SDdiminfo(d, nm, &sz, &nt0, &na) == FAIL || sz == 0) return; /* unlimited dimensions: no scales here */
         int32 count = hk_chance(10) ? sz + 1 : sz;
         int32 nt = gen_nt(0);
+        if (smode && nt0 != 0) nt = smode == 1 ? nt0 : other_nt(nt0, smode == 2);
         int foreign = 0; { int cv = sd_coordvar_of(d); if (cv >= 0) { char vn[H4_MAX_NC_NAME + 8]; int32 rk, vt, va, dsz[H4_MAX_VAR_DIMS];
             if (SDgetinfo(sds(cv), vn, &rk, dsz, &vt, &va) != FAIL && rk == 1 && dsz[0] != sz) foreign = 1; } }
         gen_val(valbuf, count * 8);
@@ -619,9 +702,14 @@ static void sd_op_dim(void)
         sd_emit_newvars();
         if (rc != FAIL && !sd_rdwr) hk_fail("sd-setattr-on-readonly-file-succeeds", "SDsetdimscale on a DFACC_READ file");
         else if (rc == FAIL && !sd_rdwr) { }
+        else if (rc != FAIL && sd_single) { int32 nt1 = 0; if (SDdiminfo(d, nm, &sz, &nt1, &na) == FAIL || nt1 != nt) hk_fail("sd-dimscale-roundtrip", "SDdiminfo reports type %d after SDsetdimscale with %d", (int)nt1, (int)nt); }
         else if (rc != FAIL) { memset(outbuf, 0, 64); if (SDgetdimscale(d, outbuf) == FAIL || memcmp(outbuf, valbuf, (size_t)count * (size_t)ntsz(nt))) hk_fail("sd-dimscale-roundtrip", "-"); }
         else if (count == sz && foreign) hk_fail("sd-dimscale-on-foreign-coordvar-fails", "the dimension carries the name of a coordinate variable left behind by a rename (other size)");
         else if (count == sz) hk_fail(nt0 != 0 ? "sd-dimscale-wider-type-fails" : "sd-setdimscale-unexpected-failure", "scale type %d -> %d (the data element of an existing scale never grows)", (int)nt0, (int)nt);
+        /* what the coordinate variable holds from now on (a call that failed after the variable was found leaves it unknown) */
+        if (sd_rdwr && (rc != FAIL || count == sz)) { int cv = sd_coordvar_of(d);
+            if (cv >= 0 && cv < MAXV) { sc_clear(cv);
+                if (rc != FAIL) { sc[cv].valid = 1; sc[cv].nt = nt; sc[cv].len = count * ntsz(nt); sc[cv].val = malloc((size_t)sc[cv].len + 1); memcpy(sc[cv].val, valbuf, (size_t)sc[cv].len); } } }
         sd_sync_dimshadow();
     }
     else {
@@ -631,6 +719,12 @@ static void sd_op_dim(void)
         if (SDgetdimscale(d, outbuf) == FAIL) printf("fail\n"); else { phex(outbuf, (size_t)sz * (size_t)ntsz(nt0)); printf("\n"); }
         sd_emit_newvars();
     }
+}
+static void sd_op_dim(void)
+{
+    int s = sd_pick_slot(); if (s < 0) return;
+    int r = (int)hk_range(0, 99);
+    sd_op_dim_at(s, r, 0);
 }
 static void sd_op_tables(void)
 {
@@ -740,6 +834,74 @@ static void run_sd(int k, int limit)
     }
 }
 
+/* ---- single-change histories: every read-write session after the first makes ONE setter call and nothing else */
+enum { SS_ATTR_FILE, SS_ATTR_VAR, SS_ATTR_DIM, SS_ATTR_VALUES, SS_ATTR_RETYPE, SS_SCALE_SAME, SS_SCALE_SAMESIZE, SS_SCALE_OTHERSIZE, SS_SCALE_ANY,
+       SS_DIMSTRS, SS_DATASTRS, SS_CAL, SS_RANGE, SS_FILL, SS_DIMNAME, SS_NKINDS };
+/* a dimension slot of fixed size, preferably one whose scale is on disk (want_scale) */
+static int sd_pick_fixed_slot(int want_scale)
+{
+    int cand[MAXD], n = 0, cs[MAXD], ns = 0;
+    for (int s = 0; s < nslots; s++) { char nm[H4_MAX_NC_NAME + 8]; int32 sz = 0, nt = 0, na;
+        if (!slotvk[s].known || SDdiminfo(dimid_of_slot(s), nm, &sz, &nt, &na) == FAIL || sz == 0) continue;
+        cand[n++] = s; if (nt != 0) cs[ns++] = s; }
+    if (want_scale && ns > 0) return cs[hk_range(0, ns - 1)];
+    return n > 0 ? cand[hk_range(0, n - 1)] : -1;
+}
+static void sd_single_setter(int kind)
+{
+    int v = sd_nvars > 0 ? (int)hk_range(0, sd_nvars - 1) : -1;
+    int s = sd_pick_slot();
+    switch (kind) {
+    case SS_ATTR_FILE: fz_kind = 0; fz_idx = 0; fz_attr = hk_chance(60) ? 2 : 0; sd_op_setattr(hk_chance(30)); break;
+    case SS_ATTR_VAR: if (v < 0) break; fz_kind = 1; fz_idx = v; fz_attr = hk_chance(60) ? 2 : 0; sd_op_setattr(hk_chance(30)); break;
+    case SS_ATTR_DIM: if (s < 0) break; fz_kind = 2; fz_idx = s; fz_attr = hk_chance(60) ? 2 : 0; sd_op_setattr(hk_chance(30)); break;
+    case SS_ATTR_VALUES: case SS_ATTR_RETYPE: { /* an attribute that is on disk gets new values only / another type and count */
+        int q = (int)hk_range(0, 2);
+        if (q == 2 && s >= 0) { fz_kind = 2; fz_idx = s; } else if (q >= 1 && v >= 0) { fz_kind = 1; fz_idx = v; } else { fz_kind = 0; fz_idx = 0; }
+        fz_attr = kind == SS_ATTR_VALUES ? 1 : 3; sd_op_setattr(0); break; }
+    case SS_SCALE_SAME: case SS_SCALE_SAMESIZE: case SS_SCALE_OTHERSIZE: case SS_SCALE_ANY:
+        s = sd_pick_fixed_slot(kind != SS_SCALE_ANY); if (s < 0) break;
+        sd_op_dim_at(s, 70, kind == SS_SCALE_SAME ? 1 : kind == SS_SCALE_SAMESIZE ? 2 : kind == SS_SCALE_OTHERSIZE ? 3 : 0); break;
+    case SS_DIMSTRS: if (s >= 0) sd_op_dim_at(s, 45, 0); break;
+    case SS_DATASTRS: if (v >= 0) sd_op_datastrs_at(v, 1); break;
+    case SS_CAL: if (v >= 0) sd_op_cal_at(v, 1); break;
+    case SS_RANGE: if (v >= 0) sd_op_range_fill_at(v, 0); break;
+    case SS_FILL: if (v >= 0) sd_op_range_fill_at(v, 2); break;
+    case SS_DIMNAME: if (s >= 0) sd_op_dim_at(s, 0, 0); break;
+    }
+    fz_kind = -1; fz_attr = 0;
+}
+static void run_sd_single(int k)
+{
+    snprintf(fname, sizeof fname, "%s", hk_tmp("sd1"));
+    snprintf(fname + strlen(fname), 64, "_%d.hdf", k);
+    sd_start('c');
+    for (int t = 0; t < 50 && sd_nvars == 0; t++) sd_op_create(0);
+    if (sd_nvars == 0) { sd_end(); return; }
+    sd_ops((int)hk_range(8, 30));
+    /* most dimensions of fixed size get a scale and strings, most datasets their predefined attributes: things to re-set later */
+    for (int s = 0; s < nslots; s++) if (slotvk[s].known) { if (hk_chance(60)) sd_op_dim_at(s, 70, 0); if (hk_chance(40)) sd_op_dim_at(s, 45, 0); }
+    for (int v = 0, n = sd_nvars; v < n; v++) { if (hk_chance(40)) sd_op_datastrs_at(v, 1); if (hk_chance(30)) sd_op_cal_at(v, 1); if (hk_chance(30)) sd_op_range_fill_at(v, 0); if (hk_chance(30)) sd_op_range_fill_at(v, 2); }
+    sd_end();
+    int nsess = (int)hk_range(5, 9), first = (int)hk_range(0, SS_NKINDS - 1);
+    for (int i = 0; i < nsess; i++) {
+        sd_start('w');
+        if (sdid == FAIL) { hk_fail("sd-reopen-failed", "SDstart after a successful SDend"); return; }
+        sd_audit_after_reopen();
+        sd_single = 1;
+        sd_single_setter((first + i * 4) % SS_NKINDS); /* 4 is coprime to the number of kinds: a case walks through different families */
+        sd_single = 0;
+        sd_end();
+        if (i == nsess - 1 || hk_chance(60)) { /* the complete audit, scale values included, needs a read-only session */
+            sd_start('r');
+            if (sdid == FAIL) { hk_fail("sd-reopen-failed", "SDstart after a successful SDend"); return; }
+            sd_audit_after_reopen();
+            sd_end();
+        }
+    }
+    hk_stat("sd_single_cases", 1);
+}
+
 /* =============================================================================================== GR */
 #define MAXI 4
 static int32 hfid = FAIL, grid = FAIL, riid[MAXI];
@@ -812,6 +974,43 @@ static void gr_readback(int32 id, const SList *l, const char *name, const char *
     if (GRattrinfo(id, i, nm, &nt, &cnt) == FAIL || strcmp(nm, name) || nt != l->a[i].nt || cnt != l->a[i].count) { hk_fail(key, "GRattrinfo %d", i); return; }
     if (GRgetattr(id, i, outbuf) == FAIL || memcmp(outbuf, l->a[i].val, (size_t)l->a[i].vlen)) hk_fail(key, "GRgetattr %d", i);
 }
+/* GRsetattr on the file (o < 0) or image o; mode 0 = anything, 1 = an existing attribute gets new values (same type and count),
+   2 = a new name, 3 = an existing attribute, same type, another count */
+static void gr_op_setattr(int o, int mode)
+{
+    int32 id = gr_id(o); SList *l = gr_sh(o);
+    char name[400]; gen_name(name);
+    for (char *p = name; *p; p++) if (*p == ',') *p = '_';
+    if (l->n > 0 && hk_chance(40)) strcpy(name, l->a[hk_range(0, l->n - 1)].name);
+    int pos = sl_find(l, name);
+    int32 nt = hk_chance(4) ? gen_bad_nt() : (pos >= 0 && hk_chance(75)) ? l->a[pos].nt : gen_nt(1);
+    int sz = ntsz(nt);
+    int32 count = hk_chance(3) ? (int32)hk_range(-1, 0) : gen_count(sz);
+    if (mode == 2) { while (sl_find(l, name) >= 0 && strlen(name) < 60) strcat(name, "_"); pos = sl_find(l, name); }
+    else if (mode && l->n > 0) { pos = (int)hk_range(0, l->n - 1); strcpy(name, l->a[pos].name); nt = l->a[pos].nt; sz = ntsz(nt); if (mode == 1) count = l->a[pos].count; }
+    int vlen = count > 0 ? count * sz : 0; if (vlen > BIG * 8) vlen = 8;
+    gen_val(valbuf, vlen);
+    printf("T attr gr.setattr %s ", gr_tok(o)); pname(name); printf(" %d %d ", (int)nt, (int)count); phex(valbuf, (size_t)vlen);
+    int rc = GRsetattr(id, name, nt, count, valbuf);
+    printf(" => %s\n", rc == FAIL ? "fail" : "ok");
+    int exp = expect_set(K_GR, l, name, nt, count, gr_w);
+    int li = o + 1;
+    if (rc != FAIL) {
+        if (!exp) hk_fail("gr-setattr-unexpected-success", "nt %d count %d", (int)nt, (int)count);
+        if (!gr_w) hk_fail("gr-setattr-on-readonly-file-succeeds", "GRsetattr reported success on a file opened DFACC_READ");
+        if (pos < 0 && l->n < 4096) gr_new_cached[li][l->n] = vlen < 2048;
+        sl_set(l, pos, name, nt, count, valbuf, vlen);
+        gr_readback(id, l, name, "gr-get-after-set");
+        if (l->n > 1) { int j = (int)hk_range(0, l->n - 1); if (strcmp(l->a[j].name, name)) gr_readback(id, l, l->a[j].name, "gr-frame"); }
+    }
+    else {
+        if (exp) {
+            if (pos >= 0 && pos < 4096 && gr_new_cached[li][pos] && vlen > 2048) hk_fail("gr-setattr-grow-of-unwritten-attr-fails", "attr created in this session with < 2048 bytes, re-set with %d bytes", vlen);
+            else hk_fail("gr-setattr-unexpected-failure", "nt %d count %d name %d chars", (int)nt, (int)count, (int)strlen(name));
+        }
+        if (pos >= 0) gr_readback(id, l, name, "gr-failed-set-changed-value");
+    }
+}
 static void gr_ops(int n)
 {
     for (int it = 0; it < n; it++) {
@@ -828,37 +1027,7 @@ static void gr_ops(int n)
             if (gr_w) GRwriteimage(ri, st, NULL, d, px);
             riid[gr_nimg] = ri; sl_free(&gh_img[gr_nimg]); gr_nimg++;
         }
-        else if (r < 55) {
-            char name[400]; gen_name(name);
-            for (char *p = name; *p; p++) if (*p == ',') *p = '_';
-            if (l->n > 0 && hk_chance(40)) strcpy(name, l->a[hk_range(0, l->n - 1)].name);
-            int pos = sl_find(l, name);
-            int32 nt = hk_chance(4) ? gen_bad_nt() : (pos >= 0 && hk_chance(75)) ? l->a[pos].nt : gen_nt(1);
-            int sz = ntsz(nt);
-            int32 count = hk_chance(3) ? (int32)hk_range(-1, 0) : gen_count(sz);
-            int vlen = count > 0 ? count * sz : 0; if (vlen > BIG * 8) vlen = 8;
-            gen_val(valbuf, vlen);
-            printf("T attr gr.setattr %s ", gr_tok(o)); pname(name); printf(" %d %d ", (int)nt, (int)count); phex(valbuf, (size_t)vlen);
-            int rc = GRsetattr(id, name, nt, count, valbuf);
-            printf(" => %s\n", rc == FAIL ? "fail" : "ok");
-            int exp = expect_set(K_GR, l, name, nt, count, gr_w);
-            int li = o + 1;
-            if (rc != FAIL) {
-                if (!exp) hk_fail("gr-setattr-unexpected-success", "nt %d count %d", (int)nt, (int)count);
-                if (!gr_w) hk_fail("gr-setattr-on-readonly-file-succeeds", "GRsetattr reported success on a file opened DFACC_READ");
-                if (pos < 0 && l->n < 4096) gr_new_cached[li][l->n] = vlen < 2048;
-                sl_set(l, pos, name, nt, count, valbuf, vlen);
-                gr_readback(id, l, name, "gr-get-after-set");
-                if (l->n > 1) { int j = (int)hk_range(0, l->n - 1); if (strcmp(l->a[j].name, name)) gr_readback(id, l, l->a[j].name, "gr-frame"); }
-            }
-            else {
-                if (exp) {
-                    if (pos >= 0 && pos < 4096 && gr_new_cached[li][pos] && vlen > 2048) hk_fail("gr-setattr-grow-of-unwritten-attr-fails", "attr created in this session with < 2048 bytes, re-set with %d bytes", vlen);
-                    else hk_fail("gr-setattr-unexpected-failure", "nt %d count %d name %d chars", (int)nt, (int)count, (int)strlen(name));
-                }
-                if (pos >= 0) gr_readback(id, l, name, "gr-failed-set-changed-value");
-            }
-        }
+        else if (r < 55) gr_op_setattr(o, 0);
         else if (r < 70) {
             char name[400]; gen_name(name);
             if (l->n > 0 && hk_chance(70)) strcpy(name, l->a[hk_range(0, l->n - 1)].name);
@@ -894,6 +1063,23 @@ static void run_gr(int k)
     gr_start('c'); gr_ops((int)hk_range(10, 40)); gr_end();
     int nsess = (int)hk_range(1, 3);
     for (int s = 0; s < nsess; s++) { gr_start(hk_chance(70) ? 'w' : 'r'); if (grid == FAIL) { hk_fail("gr-reopen-failed", "-"); return; } gr_ops((int)hk_range(6, 30)); gr_end(); }
+}
+/* single-change history: after the first session every read-write session makes ONE GRsetattr call; gr_start audits all lists */
+static void run_gr_single(int k)
+{
+    snprintf(fname, sizeof fname, "%s", hk_tmp("gr1")); snprintf(fname + strlen(fname), 64, "_%d.hdf", k);
+    gr_start('c'); gr_ops((int)hk_range(15, 40)); gr_end();
+    int nsess = (int)hk_range(4, 8), first = (int)hk_range(0, 5);
+    for (int i = 0; i < nsess; i++) {
+        gr_start('w'); if (grid == FAIL) { hk_fail("gr-reopen-failed", "-"); return; }
+        int c = (first + i) % 6; /* file / image  x  new name, values only, another count */
+        int o = (c & 1) && gr_nimg > 0 ? (int)hk_range(0, gr_nimg - 1) : -1;
+        gr_op_setattr(o, c / 2 == 0 ? 2 : c / 2 == 1 ? 1 : 3);
+        gr_end();
+    }
+    gr_start('r'); if (grid == FAIL) { hk_fail("gr-reopen-failed", "-"); return; }
+    gr_end();
+    hk_stat("gr_single_cases", 1);
 }
 
 /* =============================================================================================== V / VS */
@@ -963,6 +1149,72 @@ static void gen_vname(char *name, const SList *l)
     if (strlen(name) > 200) name[200] = 0;
     if (l->n > 0 && hk_chance(40)) strcpy(name, l->a[hk_range(0, l->n - 1)].name);
 }
+/* VSsetattr on Vdata o, field fx (-1 = the Vdata itself); mode 0 = anything, 1 = an existing attribute gets new values, 2 = a new name */
+static void v_op_vs_setattr(int o, int fx, int mode)
+{
+    int okfx = fx >= -1 && fx < vd[o].nf;
+    SList *l = &vd[o].f[okfx ? fx + 1 : 0];
+    char name[400], tname[400]; gen_vname(name, l);
+    strcpy(tname, name); tname[VSNAMELENMAX] = 0; /* the name as a vdata name holds it */
+    int pos = okfx ? sl_find(l, tname) : -1;
+    int32 nt = v_gen_nt(pos >= 0 ? l->a[pos].nt : 0, pos >= 0);
+    int sz = ntsz(nt);
+    int32 count = v_gen_count(sz, pos >= 0 ? l->a[pos].count : 0, pos >= 0);
+    if (mode == 2) { while (sl_find(l, tname) >= 0 && strlen(name) < 60) { strcat(name, "_"); strcpy(tname, name); } pos = okfx ? sl_find(l, tname) : -1; }
+    else if (mode == 1 && okfx && l->n > 0) { pos = (int)hk_range(0, l->n - 1); strcpy(name, l->a[pos].name); strcpy(tname, name); nt = l->a[pos].nt; sz = ntsz(nt); count = l->a[pos].count; }
+    int vlen = count > 0 ? count * sz : 0; if (vlen > BIG * 8) vlen = 8;
+    gen_val(valbuf, vlen);
+    printf("T attr vs.setattr %d %d ", o, fx); pname(name); printf(" %d %d ", (int)nt, (int)count); phex(valbuf, (size_t)vlen);
+    int rc = VSsetattr(vd[o].id, fx, name, nt, count, valbuf);
+    printf(" => %s\n", rc == FAIL ? "fail" : "ok");
+    int exp = okfx && expect_set(K_VS, l, tname, nt, count, vd[o].w);
+    if (rc != FAIL) {
+        if (!exp) hk_fail("vs-setattr-unexpected-success", "nt %d count %d fx %d", (int)nt, (int)count, fx);
+        if (pos < 0) vd[o].total++;
+        sl_set(l, pos, tname, nt, count, valbuf, vlen);
+        if (VSfindattr(vd[o].id, fx, name) != sl_find(l, tname) || VSfnattrs(vd[o].id, fx) != l->n) { /* a long name must be found again and never duplicated */
+            hk_fail("vs-attr-name-truncated", "VSsetattr with a %d-char name: lookup by that name gives %d (want %d), %d attributes (want %d)", (int)strlen(name), VSfindattr(vd[o].id, fx, name), sl_find(l, tname), VSfnattrs(vd[o].id, fx), l->n); vs_resync(o, fx); return; }
+        vs_readback(o, fx, tname, "vs-get-after-set");
+        if (l->n > 1) { int j = (int)hk_range(0, l->n - 1); if (strcmp(l->a[j].name, tname)) vs_readback(o, fx, l->a[j].name, "vs-frame"); }
+    }
+    else {
+        if (pos < 0 && okfx && vd[o].w) v_leaked = 1;
+        if (exp) hk_fail("vs-setattr-unexpected-failure", "nt %d count %d", (int)nt, (int)count);
+        if (pos >= 0) vs_readback(o, fx, tname, "vs-failed-set-changed-value");
+    }
+}
+/* Vsetattr on Vgroup o; modes as for v_op_vs_setattr */
+static void v_op_vg_setattr(int o, int mode)
+{
+    SList *l = &vgp[o].a;
+    char name[400], tname[400]; gen_vname(name, l);
+    strcpy(tname, name); tname[VSNAMELENMAX] = 0;
+    int pos = sl_find(l, tname);
+    int32 nt = v_gen_nt(pos >= 0 ? l->a[pos].nt : 0, pos >= 0);
+    int sz = ntsz(nt);
+    int32 count = v_gen_count(sz, pos >= 0 ? l->a[pos].count : 0, pos >= 0);
+    if (mode == 2) { while (sl_find(l, tname) >= 0 && strlen(name) < 60) { strcat(name, "_"); strcpy(tname, name); } pos = sl_find(l, tname); }
+    else if (mode == 1 && l->n > 0) { pos = (int)hk_range(0, l->n - 1); strcpy(name, l->a[pos].name); strcpy(tname, name); nt = l->a[pos].nt; sz = ntsz(nt); count = l->a[pos].count; }
+    int vlen = count > 0 ? count * sz : 0; if (vlen > BIG * 8) vlen = 8;
+    gen_val(valbuf, vlen);
+    printf("T attr vg.setattr %d ", o); pname(name); printf(" %d %d ", (int)nt, (int)count); phex(valbuf, (size_t)vlen);
+    int rc = Vsetattr(vgp[o].id, name, nt, count, valbuf);
+    printf(" => %s\n", rc == FAIL ? "fail" : "ok");
+    int exp = expect_set(K_VS, l, tname, nt, count, vgp[o].w);
+    if (rc != FAIL) {
+        if (!exp) hk_fail("vg-setattr-unexpected-success", "nt %d count %d", (int)nt, (int)count);
+        sl_set(l, pos, tname, nt, count, valbuf, vlen);
+        if (Vfindattr(vgp[o].id, name) != sl_find(l, tname) || Vnattrs(vgp[o].id) != l->n) {
+            hk_fail("vs-attr-name-truncated", "Vsetattr with a %d-char name: lookup by that name gives %d (want %d), %d attributes (want %d)", (int)strlen(name), Vfindattr(vgp[o].id, name), sl_find(l, tname), Vnattrs(vgp[o].id), l->n); vg_resync(o); return; }
+        vg_readback(o, tname, "vg-get-after-set");
+        if (l->n > 1) { int j = (int)hk_range(0, l->n - 1); if (strcmp(l->a[j].name, tname)) vg_readback(o, l->a[j].name, "vg-frame"); }
+    }
+    else {
+        if (pos < 0 && vgp[o].w) v_leaked = 1;
+        if (exp) hk_fail("vg-setattr-unexpected-failure", "nt %d count %d", (int)nt, (int)count);
+        if (pos >= 0) vg_readback(o, tname, "vg-failed-set-changed-value");
+    }
+}
 static void v_ops(int n)
 {
     for (int it = 0; it < n; it++) {
@@ -1004,34 +1256,7 @@ static void v_ops(int n)
             int okfx = fx >= -1 && fx < vd[o].nf;
             SList *l = &vd[o].f[okfx ? fx + 1 : 0];
             int q = (int)hk_range(0, 99);
-            if (q < 50) {
-                char name[400], tname[400]; gen_vname(name, l);
-                strcpy(tname, name); tname[VSNAMELENMAX] = 0; /* the name as a vdata name holds it */
-                int pos = okfx ? sl_find(l, tname) : -1;
-                int32 nt = v_gen_nt(pos >= 0 ? l->a[pos].nt : 0, pos >= 0);
-                int sz = ntsz(nt);
-                int32 count = v_gen_count(sz, pos >= 0 ? l->a[pos].count : 0, pos >= 0);
-                int vlen = count > 0 ? count * sz : 0; if (vlen > BIG * 8) vlen = 8;
-                gen_val(valbuf, vlen);
-                printf("T attr vs.setattr %d %d ", o, fx); pname(name); printf(" %d %d ", (int)nt, (int)count); phex(valbuf, (size_t)vlen);
-                int rc = VSsetattr(vd[o].id, fx, name, nt, count, valbuf);
-                printf(" => %s\n", rc == FAIL ? "fail" : "ok");
-                int exp = okfx && expect_set(K_VS, l, tname, nt, count, vd[o].w);
-                if (rc != FAIL) {
-                    if (!exp) hk_fail("vs-setattr-unexpected-success", "nt %d count %d fx %d", (int)nt, (int)count, fx);
-                    if (pos < 0) vd[o].total++;
-                    sl_set(l, pos, tname, nt, count, valbuf, vlen);
-                    if (VSfindattr(vd[o].id, fx, name) != sl_find(l, tname) || VSfnattrs(vd[o].id, fx) != l->n) { /* a long name must be found again and never duplicated */
-                        hk_fail("vs-attr-name-truncated", "VSsetattr with a %d-char name: lookup by that name gives %d (want %d), %d attributes (want %d)", (int)strlen(name), VSfindattr(vd[o].id, fx, name), sl_find(l, tname), VSfnattrs(vd[o].id, fx), l->n); vs_resync(o, fx); continue; }
-                    vs_readback(o, fx, tname, "vs-get-after-set");
-                    if (l->n > 1) { int j = (int)hk_range(0, l->n - 1); if (strcmp(l->a[j].name, tname)) vs_readback(o, fx, l->a[j].name, "vs-frame"); }
-                }
-                else {
-                    if (pos < 0 && okfx && vd[o].w) v_leaked = 1;
-                    if (exp) hk_fail("vs-setattr-unexpected-failure", "nt %d count %d", (int)nt, (int)count);
-                    if (pos >= 0) vs_readback(o, fx, tname, "vs-failed-set-changed-value");
-                }
-            }
+            if (q < 50) v_op_vs_setattr(o, fx, 0);
             else if (q < 60) { printf("T attr vs.nattrs %d => %d\n", o, VSnattrs(vd[o].id)); }
             else if (q < 70) { int n2 = VSfnattrs(vd[o].id, fx); printf("T attr vs.fnattrs %d %d => ", o, fx); if (n2 == FAIL) printf("fail\n"); else printf("%d\n", n2); }
             else if (q < 80) { char name[400]; gen_vname(name, l);
@@ -1048,33 +1273,7 @@ static void v_ops(int n)
             int o = (int)hk_range(0, nvg - 1); if (vgp[o].id == FAIL) continue;
             SList *l = &vgp[o].a;
             int q = (int)hk_range(0, 99);
-            if (q < 50) {
-                char name[400], tname[400]; gen_vname(name, l);
-                strcpy(tname, name); tname[VSNAMELENMAX] = 0;
-                int pos = sl_find(l, tname);
-                int32 nt = v_gen_nt(pos >= 0 ? l->a[pos].nt : 0, pos >= 0);
-                int sz = ntsz(nt);
-                int32 count = v_gen_count(sz, pos >= 0 ? l->a[pos].count : 0, pos >= 0);
-                int vlen = count > 0 ? count * sz : 0; if (vlen > BIG * 8) vlen = 8;
-                gen_val(valbuf, vlen);
-                printf("T attr vg.setattr %d ", o); pname(name); printf(" %d %d ", (int)nt, (int)count); phex(valbuf, (size_t)vlen);
-                int rc = Vsetattr(vgp[o].id, name, nt, count, valbuf);
-                printf(" => %s\n", rc == FAIL ? "fail" : "ok");
-                int exp = expect_set(K_VS, l, tname, nt, count, vgp[o].w);
-                if (rc != FAIL) {
-                    if (!exp) hk_fail("vg-setattr-unexpected-success", "nt %d count %d", (int)nt, (int)count);
-                    sl_set(l, pos, tname, nt, count, valbuf, vlen);
-                    if (Vfindattr(vgp[o].id, name) != sl_find(l, tname) || Vnattrs(vgp[o].id) != l->n) {
-                        hk_fail("vs-attr-name-truncated", "Vsetattr with a %d-char name: lookup by that name gives %d (want %d), %d attributes (want %d)", (int)strlen(name), Vfindattr(vgp[o].id, name), sl_find(l, tname), Vnattrs(vgp[o].id), l->n); vg_resync(o); continue; }
-                    vg_readback(o, tname, "vg-get-after-set");
-                    if (l->n > 1) { int j = (int)hk_range(0, l->n - 1); if (strcmp(l->a[j].name, tname)) vg_readback(o, l->a[j].name, "vg-frame"); }
-                }
-                else {
-                    if (pos < 0 && vgp[o].w) v_leaked = 1;
-                    if (exp) hk_fail("vg-setattr-unexpected-failure", "nt %d count %d", (int)nt, (int)count);
-                    if (pos >= 0) vg_readback(o, tname, "vg-failed-set-changed-value");
-                }
-            }
+            if (q < 50) v_op_vg_setattr(o, 0);
             else if (q < 62) printf("T attr vg.nattrs %d => %d\n", o, Vnattrs(vgp[o].id));
             else if (q < 75) { char name[400]; gen_vname(name, l);
                 printf("T attr vg.findattr %d ", o); pname(name); int i = Vfindattr(vgp[o].id, name); if (i == FAIL) printf(" => fail\n"); else printf(" => %d\n", i); }
@@ -1111,10 +1310,41 @@ static void run_v(int k)
     for (int s = 0; s < nsess && !v_dead; s++) { v_start(hk_chance(70) ? 'w' : 'r'); if (vfid == FAIL) { hk_fail("v-reopen-failed", "-"); return; } v_audit_after_reopen(); v_ops((int)hk_range(8, 30)); v_end(); }
 }
 
+/* single-change history: after the first session every read-write session attaches ONE object for writing and makes ONE
+   VSsetattr / Vsetattr call on it; the next session's audit compares every attribute of every object */
+static void run_v_single(int k)
+{
+    snprintf(fname, sizeof fname, "%s", hk_tmp("v1")); snprintf(fname + strlen(fname), 64, "_%d.hdf", k);
+    v_leaked = v_dead = 0;
+    v_start('c'); v_ops((int)hk_range(25, 60)); v_end();
+    int nsess = (int)hk_range(4, 8), first = (int)hk_range(0, 5);
+    for (int i = 0; i < nsess && !v_dead; i++) {
+        v_start('w'); if (vfid == FAIL) { hk_fail("v-reopen-failed", "-"); return; }
+        v_audit_after_reopen();
+        int c = (first + i) % 6; /* Vdata / field / Vgroup  x  new name, values only */
+        int mode = c & 1 ? 1 : 2;
+        if (c / 2 < 2 && nvd > 0) { int o = (int)hk_range(0, nvd - 1);
+            int fx = c / 2 == 0 ? -1 : (int)hk_range(0, vd[o].nf - 1);
+            if (vd[o].id != FAIL) { printf("T attr vs.detach %d => ", o); int rc = VSdetach(vd[o].id); printf("%s\n", rc == FAIL ? "fail" : "ok"); }
+            printf("T attr vs.attach %d w => ", o); vd[o].id = VSattach(vfid, vd[o].ref, "w"); vd[o].w = 1; printf("%s\n", vd[o].id == FAIL ? "fail" : "ok");
+            if (vd[o].id != FAIL) v_op_vs_setattr(o, fx, mode); }
+        else if (nvg > 0) { int o = (int)hk_range(0, nvg - 1);
+            if (vgp[o].id != FAIL) { printf("T attr vg.detach %d => ", o); int rc = Vdetach(vgp[o].id); printf("%s\n", rc == FAIL ? "fail" : "ok"); }
+            printf("T attr vg.attach %d w => ", o); vgp[o].id = Vattach(vfid, vgp[o].ref, "w"); vgp[o].w = 1; printf("%s\n", vgp[o].id == FAIL ? "fail" : "ok");
+            if (vgp[o].id != FAIL) v_op_vg_setattr(o, mode); }
+        v_end();
+    }
+    if (!v_dead) { v_start('r'); if (vfid == FAIL) { hk_fail("v-reopen-failed", "-"); return; } v_audit_after_reopen(); v_end(); }
+    hk_stat("v_single_cases", 1);
+}
+
 static void run_case(int k)
 {
-    int fl = k % 8;
-    if (fl == 3) run_sd(k, (k / 8) % 3 == 0);
+    int fl = k % 8, single = (k / 8) % 2 == 1;
+    if (single && (fl == 1 || fl == 4)) run_sd_single(k);
+    else if (single && fl == 6) run_gr_single(k);
+    else if (single && fl == 7) run_v_single(k);
+    else if (fl == 3) run_sd(k, (k / 8) % 3 == 0);
     else if (fl <= 4) run_sd(k, 0);
     else if (fl <= 6) run_gr(k);
     else run_v(k);
